@@ -11,6 +11,7 @@ tokens in every keyword context of up to three words before and one after; (3) B
 histories sharing one lookup (state = canonical FileAnonymizer), pairwise over two secret
 assignments."""
 import itertools
+import re
 import json
 
 from mc import refs, seams
@@ -137,7 +138,15 @@ class Forms(Part):
         for cls in f["classes"]:
             salt_lens = b["md5_salt_lengths"] if cls == "md5" else [0]
             for sl in salt_lens:
-                for pi, (A, B) in enumerate(secdom.pools(cls, self.seed, sl or 4)):
+                pool = list(secdom.pools(cls, self.seed, sl or 4))
+                if cls == "text" and "(?!" in f["regex"]:
+                    # values the pattern exempts are read off the pattern itself: a secret that merely BEGINS
+                    # (or ends) with such a value is a secret like any other
+                    inside = f["regex"][f["regex"].index("(?!"):]
+                    for w in sorted(set(re.findall(r"[A-Za-z][A-Za-z-]{3,}", inside)))[:10]:
+                        pool.append((w + "Xk3q", w + "Zr8mW"))
+                        pool.append(("Xk3q" + w, "Zr8mW" + w))
+                for pi, (A, B) in enumerate(pool):
                     pats = [("ab", (A, B), (B, A))] if f["slots"] == 2 else [("a", (A,), (B,))]
                     if f["slots"] == 2:
                         pats.append(("aa", (A, A), (B, B)))
